@@ -4,8 +4,13 @@
  * NULL, may fail, sized-free assertion).  The 2-safety lemma units need the
  * SAME allocation outcomes in both runs they compare; they switch the
  * allocator to a schedule (g_alloc_sched): request number i of a run is
- * refused iff bit i of the arbitrary mask g_fail_mask is set (and every
- * request above 2^48 bytes is refused).  Those units run cbmc with
+ * refused iff bit i of the arbitrary mask g_fail_mask is set, and every
+ * request above VP_LEM_OBJ bytes is refused (a legitimate allocator may refuse
+ * any request); granted blocks all have VP_LEM_OBJ bytes, because heap
+ * objects of symbolic size made CBMC's array post-processing explode (18 M
+ * variables for a 3-byte input).  Memory safety is therefore NOT what the
+ * lemma units establish (the contract units do, with exact sizes); the sized
+ * free assertion is skipped in schedule mode.  Those units run cbmc with
  * --no-malloc-may-fail so that malloc itself adds no second source of
  * failure.
  *
@@ -16,13 +21,14 @@
 #ifndef VP_HTTPCHUNK_ENV_H
 #define VP_HTTPCHUNK_ENV_H
 
+#define VP_LEM_OBJ ((size_t) 64)
 static bool
 vp_alloc_refused(size_t sz)
 {
 	if (g_alloc_sched) {
 		size_t i = g_alloc_seq;
 		g_alloc_seq++;
-		if (sz > ((size_t) 1 << 48)) {
+		if (sz > VP_LEM_OBJ) {
 			return (true);
 		}
 		return (i >= 8 * sizeof(size_t) ? true : ((g_fail_mask >> i) & 1) != 0);
@@ -33,7 +39,7 @@ vp_alloc_refused(size_t sz)
 void *
 nni_alloc(size_t sz)
 {
-	void *p = (sz > 0 && !vp_alloc_refused(sz)) ? malloc(sz) : NULL;
+	void *p = (sz > 0 && !vp_alloc_refused(sz)) ? (g_alloc_sched ? malloc(VP_LEM_OBJ) : malloc(sz)) : NULL;
 	if (p != NULL) {
 		g_alloc_ok++;
 	}
@@ -43,7 +49,7 @@ nni_alloc(size_t sz)
 void *
 nni_zalloc(size_t sz)
 {
-	void *p = (sz > 0 && !vp_alloc_refused(sz)) ? calloc(1, sz) : NULL;
+	void *p = (sz > 0 && !vp_alloc_refused(sz)) ? (g_alloc_sched ? calloc(1, VP_LEM_OBJ) : calloc(1, sz)) : NULL;
 	if (p != NULL) {
 		g_alloc_ok++;
 	}
@@ -53,7 +59,9 @@ nni_zalloc(size_t sz)
 void
 nni_free(void *ptr, size_t size)
 {
-	if (ptr != NULL) {
+	if (ptr != NULL && g_alloc_sched) {
+		g_free_calls++;
+	} else if (ptr != NULL) {
 		g_free_calls++;
 		__CPROVER_assert(__CPROVER_OBJECT_SIZE(ptr) == size,
 		    "sized free: nni_free size equals allocation size");
